@@ -538,6 +538,10 @@ class MessageManager(interfaces.TokenInterface, interfaces.MessageManager):
             no_response = (message.opt.no_response or 0) & (
                 1 << message.code.class_ - 1
             ) != 0
+            # It is a note about the request this response answers, and used
+            # up here whatever becomes of the response: the object may be
+            # returned again for a request that has no such option
+            message.opt.no_response = None
 
             piggyback_key = (message.remote, message.token)
             if piggyback_key in self._piggyback_opportunities:
@@ -564,8 +568,6 @@ class MessageManager(interfaces.TokenInterface, interfaces.MessageManager):
                         "Stopping message in message manager as it is no_response and no ACK is pending."
                     )
                     return
-
-            message.opt.no_response = None
 
         if message.mtype is None:
             if self._active_exchanges is None:
